@@ -22,8 +22,8 @@ import (
 // C07: parsers are total.
 
 type c07Case struct {
-	Kind   string `json:"kind"`             // scan | string
-	Seed   string `json:"seed,omitempty"`   // seed name
+	Kind   string `json:"kind"`           // scan | string
+	Seed   string `json:"seed,omitempty"` // seed name
 	CRLF   bool   `json:"crlf,omitempty"`
 	Mut    string `json:"mutation,omitempty"` // trunc | linedel | linedup | lineswap | byte | declen | indent | novalue | widen | none
 	A      int    `json:"a,omitempty"`
